@@ -387,7 +387,7 @@ func (sr *simRun) byzPhase(ph int) {
 		}
 		// a Byzantine sender may emit its messages in any order
 		sr.r.Shuffle(len(groups), func(x, y int) { groups[x], groups[y] = groups[y], groups[x] })
-		if in.Hint == "answers-first" {
+		if in.Hint == "answers-first" || in.Hint == "share-answer-vector" {
 			isAns := func(g []item) bool {
 				return len(g) > 0 && g[0].bcast && len(g[0].data) > 0 && g[0].data[0] == dkgTagAnswer
 			}
@@ -427,6 +427,17 @@ func simPrio(hint string, m *simMsg) int {
 		if m.bcast && tag == dkgTagAnswer {
 			return 0
 		}
+	case "share-answer-vector":
+		// the private share, then the dealer's answers, then everything else, the vector last
+		switch {
+		case !m.bcast:
+			return 0
+		case tag == dkgTagAnswer:
+			return 1
+		case tag == dkgTagVec:
+			return 3
+		}
+		return 2
 	case "complaints-first":
 		if m.bcast && tag == dkgTagComplaint {
 			return 0
